@@ -222,4 +222,60 @@ Proof.
   now rewrite !andb_assoc.
 Qed.
 
+(* ---------- planToItems succeeds only if everything could be encoded (no premise on ids) ---------- *)
+Lemma oapp_some a b x : oapp a b = Some x -> exists y z, a = Some y /\ b = Some z.
+Proof. destruct a, b; simpl; intros H; try discriminate. eauto. Qed.
+
+Lemma actionsToItems_some pid l pos x : actionsToItems pid pos l = Some x -> acts_encode l = true.
+Proof. rewrite actionsToItems_eq. unfold oif. destruct (acts_encode l); [reflexivity | discriminate]. Qed.
+
+Lemma checksToItems_some pid o x : checksToItems pid o = Some x -> ochk_encodes o = true.
+Proof.
+  destruct o as [c|]; [|reflexivity]. unfold CosmosModel.checksToItems. simpl.
+  destruct (objsToIDs (map sa_id (sc_acts c))); [|discriminate].
+  destruct (actionsToItems pid 0 (sc_acts c)) eqn:E; [|discriminate]. intros _. exact (actionsToItems_some _ _ _ _ E).
+Qed.
+
+Lemma seqsToItems_some pid l : forall pos x, seqsToItems pid pos l = Some x -> seqs_encode l = true.
+Proof.
+  induction l as [|s l IH]; intros pos x; [reflexivity|].
+  cbn [CosmosModel.seqsToItems SqliteProofs.seqs_encode forallb].
+  destruct (seqToItems pid pos s) eqn:E1; [|discriminate]. destruct (seqsToItems pid (S pos) l) eqn:E2; [|discriminate].
+  intros _. unfold CosmosModel.seqToItems in E1.
+  destruct (objsToIDs (map sa_id (sq_acts s))); [|discriminate].
+  destruct (actionsToItems pid 0 (sq_acts s)) eqn:E3; [|discriminate].
+  rewrite (actionsToItems_some _ _ _ _ E3). exact (IH _ _ E2).
+Qed.
+
+Lemma blockToItem_some pid pos b x : blockToItem pid pos b = Some x -> blk_encodes b = true.
+Proof.
+  unfold CosmosModel.blockToItem, SqliteProofs.blk_encodes. destruct (objsToIDs (map sq_id (sb_seqs b))); [|discriminate].
+  intros H.
+  apply oapp_some in H as (y1 & z1 & H1 & H). apply oapp_some in H as (y2 & z2 & H2 & H).
+  apply oapp_some in H as (y3 & z3 & H3 & H). apply oapp_some in H as (y4 & z4 & H4 & H).
+  apply oapp_some in H as (y5 & z5 & H5 & H). apply oapp_some in H as (y6 & z6 & H6 & _).
+  now rewrite (checksToItems_some _ _ _ H1), (checksToItems_some _ _ _ H2), (checksToItems_some _ _ _ H3),
+              (checksToItems_some _ _ _ H4), (checksToItems_some _ _ _ H5), (seqsToItems_some _ _ _ _ H6).
+Qed.
+
+Lemma blocksToItems_some pid l : forall pos x, blocksToItems pid pos l = Some x -> blks_encode l = true.
+Proof.
+  induction l as [|b l IH]; intros pos x; [reflexivity|].
+  cbn [CosmosModel.blocksToItems SqliteProofs.blks_encode forallb].
+  destruct (blockToItem pid pos b) eqn:E1; [|discriminate]. destruct (blocksToItems pid (S pos) l) eqn:E2; [|discriminate].
+  intros _. rewrite (blockToItem_some _ _ _ _ E1). exact (IH _ _ E2).
+Qed.
+
+Lemma planToItems_some p x : planToItems p = Some x -> pln_encodes p = true.
+Proof.
+  rewrite pln_encodes_eq. unfold CosmosModel.planToItems, SqliteProofs.pln_encodes'.
+  destruct (uid_nil (sp_id p)); [discriminate|]. destruct (objsToIDs (map sb_id (sp_blocks p))); [|discriminate].
+  intros H.
+  apply oapp_some in H as (y1 & z1 & H1 & H). apply oapp_some in H as (y2 & z2 & H2 & H).
+  apply oapp_some in H as (y3 & z3 & H3 & H). apply oapp_some in H as (y4 & z4 & H4 & H).
+  apply oapp_some in H as (y5 & z5 & H5 & H). apply oapp_some in H as (y6 & z6 & H6 & _).
+  now rewrite (checksToItems_some _ _ _ H1), (checksToItems_some _ _ _ H2), (checksToItems_some _ _ _ H3),
+              (checksToItems_some _ _ _ H4), (checksToItems_some _ _ _ H5), (blocksToItems_some _ _ _ _ H6).
+Qed.
+
 End CProofs.
